@@ -31,11 +31,17 @@ ORACLE_CODES = {
     41: ("C19/restored-without-eligible-snapshot",
          "RestoreV3 did not report the no-snapshot error although no snapshot is eligible at the requested time"),
     50: ("C19/other-failure", "RestoreV3 failed in a way the property does not allow (panic, checkpoint or I/O error)"),
+    70: ("C19/success-with-different-state-after-download-fault",
+         "a read error while downloading, or a stored object that ends early, on the legacy restore path: RestoreV3 returned "
+         "nil but the database is not the one the fault-free restore produces (C10: error or a transparent retry, never "
+         "success with different content)"),
+    71: ("C19/failed-restore-left-output",
+         "RestoreV3 failed under a download fault but left a file at the output path"),
     60: ("C19/wrong-format-chosen",
          "with both legacy and current-format backups present, Restore / shouldUseV3Restore did not pick the format "
          "holding the more recent eligible backup"),
 }
-ORACLES = ("v3_plan_ok", "v3_arbitrate_ok")
+ORACLES = ("v3_plan_ok", "v3_arbitrate_ok", "v3_fault_ok")
 
 
 def harness_args(v, out):
